@@ -14,7 +14,9 @@ RULE = ("(i) exhaustive: every swizzle READ mask of length 1-4 (with repetition)
         "and float3x3/float4x4: constructors from scalars and smaller vectors, component-wise + -, comparisons, vector "
         "or matrix * / scalar, matrix +/- matrix, matrix product, row/element selection, swizzles nested in larger "
         "expressions, writes through index / swizzle / nested chains (m[i][j] = x, m[i].xy = ...), copies followed by "
-        "a write to one side, compound forms (v.xy += w), loops and branches around them. Oracle: reference interpreter "
+        "a write to one side, compound forms (v.xy += w), loops and branches around them. (iii) exhaustive: int/uint vectors "
+        "of size 2-4 built from every composition of scalar and vector parts of which at least one is float (non-integral "
+        "values, both signs), and float vectors / matrices divided by non-power-of-two scalars compared exactly. Oracle: reference interpreter "
         "(vf/interp.py) with list values and functional update: returned value, argument objects left untouched, "
         "globals. Non-trivial = the executed trace contains >= 2 vector/matrix operations (component-wise op, swizzle, "
         "element access, constructor) or a component write followed by a read; distinct by (source, input).")
@@ -147,7 +149,111 @@ def enum_case(ctx, item):
     c01.check_case(ctx, case, prop="C04", nontrivial=lambda tr: True, extra_labels=VEC_NOTES, check_args=True)
 
 
+# -- constructors that narrow (float parts into an int vector) and exact scalar division -----------------------
+
+class TextCase:
+    def __init__(self, kind, src, args, expect, note):
+        self.kind, self.src, self.args, self.expect, self.note = kind, src, args, expect, note
+
+    def show(self):
+        return "// %s: %s\n%s// args=%r" % (self.kind, self.note, self.src, self.args)
+
+
+def _compositions(n):
+    if n == 0:
+        yield ()
+        return
+    for first in range(1, n + 1):
+        for rest in _compositions(n - first):
+            yield (first,) + rest
+
+
+def text_items():
+    items = []
+    # (a) intN / uintN built from parts (scalars and smaller vectors) of which at least one is float
+    for target in ("int", "uint"):
+        for n in (2, 3, 4):
+            for comp in _compositions(n):
+                if comp == (n,) and n == 4 and False:
+                    continue
+                for kinds in itertools.product(("float", "int"), repeat=len(comp)):
+                    if "float" not in kinds:
+                        continue
+                    for negative in ((False, True) if target == "int" else (False,)):
+                        params, args, parts, expect = [], {}, [], []
+                        base = 1.5
+                        for k, (size, ck) in enumerate(zip(comp, kinds)):
+                            nm = "q%d" % k
+                            tyname = ck if size == 1 else "%s%d" % (ck, size)
+                            params.append("%s %s" % (tyname, nm))
+                            vals = []
+                            for j in range(size):
+                                v = (base + 1.25 * j) if ck == "float" else int(base) + j
+                                if negative and ck == "float":
+                                    v = -v
+                                vals.append(v)
+                            base += 2.0
+                            args[nm] = vals[0] if size == 1 else vals
+                            parts.append(nm)
+                            expect += vals
+                        src = "export function f ( %s ) -> %s%d { return %s%d ( %s ) ; }\n" % (
+                            " , ".join(params), target, n, target, n, " , ".join(parts))
+                        items.append(TextCase("narrowing-constructor", src, args, expect,
+                                              "%s%d from parts %r of component types %r%s" % (target, n, comp, kinds,
+                                                                                             " (negative values)" if negative else "")))
+    # (b) vector / matrix divided by a scalar that is not a power of two: each component is exactly x / s
+    for ty, rows, cols in (("float2", 0, 2), ("float3", 0, 3), ("float4", 0, 4), ("float3x3", 3, 3), ("float4x4", 4, 4)):
+        for s_val in (3.0, 10.0, 7.0, 49.0):
+            for form in ("expr", "compound"):
+                flat = [5.0, 7.0, 3.0, 1.0, 0.3, 11.0, 13.0, 2.0, 17.0, 19.0, 23.0, 0.7, 29.0, 31.0, 37.0, 41.0]
+                if rows:
+                    val = [[flat[(r * cols + c) % 16] for c in range(cols)] for r in range(rows)]
+                    expect = [[x / s_val for x in row] for row in val]
+                else:
+                    val = flat[:cols]
+                    expect = [x / s_val for x in val]
+                body = "return v / s ;" if form == "expr" else "v /= s ; return v ;"
+                src = "export function f ( %s v , float s ) -> %s { %s }\n" % (ty, ty, body)
+                items.append(TextCase("exact-scalar-division", src, {"v": val, "s": s_val}, expect, "%s / %r (%s)" % (ty, s_val, form)))
+    return items
+
+
+def text_case(ctx, case):
+    from .. import adapter
+    from ..interp import deep_copy
+    ctx.count()
+    ctx.label("text:" + case.kind)
+    c = adapter.compile_src(case.src)
+    if not c.ok:
+        ctx.fail("rejected|" + c.stage + "|" + c.why()[:80], "well-typed program rejected: %s\n%s" % (c.why(), case.show()), case)
+        return
+    ran = adapter.invoke(adapter.new_vm(adapter.link([c.ir])), "f", deep_copy(case.args), budget=10000)
+    if not ran.ok:
+        ctx.fail("vm-exception|" + (adapter.exc_sig(ran.exc) if ran.exc else "diverged"), "VM failed: %r\n%s" % (ran.exc, case.show()), case)
+        return
+    ctx.nontrivial(case.src + repr(case.args))
+    got = ran.value
+    if case.kind == "exact-scalar-division":
+        # IEEE division is correctly rounded: x / s has one value, computed "as written"
+        if got != case.expect:
+            ctx.fail("wrong-value|scalar-division-not-exact", "returned %r, component-wise x / s is %r\n%s" % (got, case.expect, case.show()), case)
+        return
+    # narrowing: every component of an int vector is an integer; for a non-negative source value there is only one
+    # candidate (rounding down and rounding toward zero agree), for a negative one both neighbours are admitted
+    if not isinstance(got, list) or len(got) != len(case.expect):
+        ctx.fail("wrong-value|shape", "returned %r for %d components\n%s" % (got, len(case.expect), case.show()), case)
+        return
+    for g_, v in zip(got, case.expect):
+        integral = isinstance(g_, int) or (isinstance(g_, float) and g_.is_integer())
+        okv = integral and ((g_ == int(v)) if v >= 0 else abs(g_ - v) < 1)
+        if not okv:
+            ctx.fail("wrong-value|narrowing-constructor", "component built from %r is %r in the returned int vector %r\n%s" % (
+                v, g_, got, case.show()), case)
+            return
+
+
 def run(R):
+    R.enum("constructors-and-division", text_items, text_case)
     R.enum("exhaustive-masks-indices", enum_items, enum_case)
     R.hyp("generated", genx.vector_case(), check, examples=R.pick(200, 4000), shrink="ast")
     for l in ("enum:swz-read", "enum:swz-write", "enum:mat-el-write", "vecmat-op", "swizzle-read", "swizzle-write",
